@@ -184,6 +184,31 @@ func genC06(e *emitter, tier string, seed uint64) {
 				}
 			}
 		}
+		// ---- the DER framing guards: a valid signature cut at every length with the outer length patched, and the R
+		// length patched so that R ends 0..4 bytes before the cut (S type / S length / S itself missing or short)
+		if sh == 0 {
+			k := keys[0]
+			lock := append(rawPush(k.pubC), 0xac)
+			full := signFor(tx, idx, lock, sats, 0x41, k, false)
+			body := full[:len(full)-1]
+			for L := 2; L <= len(body)+1; L++ {
+				for variant := 0; variant < 7; variant++ {
+					t := make([]byte, L)
+					copy(t, body)
+					if L > len(body) {
+						t[L-1] = 0x01
+					}
+					t[1] = byte(L - 2)
+					if variant > 0 && L >= 5 {
+						t[3] = byte(L - 9 + variant) // R length such that R ends at L-5+variant-... (sweeps the S header across the cut)
+					}
+					for _, fl := range []int{fDERSig, fStrictEnc | fForkID, fLowS} {
+						res := ixExecTx(e, fAfterGenesis|fl, rawPush(append(t, 0x41)), lock, tx, idx, sats)
+						note("checksig.der-cut", res)
+					}
+				}
+			}
+		}
 		// ---- OP_CODESEPARATOR at every position of the locking script (executed and skipped)
 		k := keys[2]
 		body := [][]byte{{0x61}, append(rawPush([]byte{0xab, 0xab}), 0x75), {0x51, 0x75}, {0x61}}
